@@ -981,6 +981,56 @@ func c02Unboxing(p *Program, r *Report, m *vmModel, isBody func(*ssa.Function) b
 	if n == 0 {
 		r.Undecided("C02.R6", "direct call|error unboxing", "vm", "no direct call of a script function body with an error box test found")
 	}
+	// what comes out of an error box as a plain error (the interruption is the only such thing a script function returns) is
+	// passed on as it is: handed to a function that makes a new error from it, it loses its identity
+	k := 0
+	for _, fn := range m.fns {
+		for _, b := range fn.Blocks {
+			for _, in := range b.Instrs {
+				ta, ok := in.(*ssa.TypeAssert)
+				if !ok || !isErrorType(ta.AssertedType) {
+					continue
+				}
+				ic, ok := ta.X.(*ssa.Call)
+				if !ok || reflectMethod(ic) != "Interface" {
+					continue
+				}
+				k++
+				var val ssa.Value = ta
+				if ta.CommaOk {
+					continue
+				}
+				bad := ""
+				seen := map[ssa.Value]bool{}
+				var follow func(v ssa.Value)
+				follow = func(v ssa.Value) {
+					if seen[v] {
+						return
+					}
+					seen[v] = true
+					for _, ref := range *v.Referrers() {
+						switch x := ref.(type) {
+						case *ssa.Phi:
+							follow(x)
+						case *ssa.Call:
+							callee := staticCallee(x)
+							if callee != nil && callee.Signature.Results().Len() == 1 && isErrorType(callee.Signature.Results().At(0).Type()) {
+								bad = "it is handed to " + callee.Name() + " at " + p.Pos(x.Pos())
+							}
+							if o := calleeObj(x); o != nil && o.Pkg() != nil && (o.Pkg().Path() == "fmt" && o.Name() == "Errorf" || o.Pkg().Path() == "errors") {
+								bad = "it is handed to " + o.FullName() + " at " + p.Pos(x.Pos())
+							}
+						case *ssa.MakeInterface:
+							follow(x)
+						}
+					}
+				}
+				follow(val)
+				r.Check(bad == "", "C02.R6", fmt.Sprintf("%s|plain error out of the box #%d passed on as it is", funcName(fn), k), p.Pos(ta.Pos()), "returned or stored unchanged",
+					"the plain error taken out of a script function's error box (an interruption) is not passed on as it is: "+bad+", which makes a new error of it; the caller's try and ?? no longer recognise the interruption and swallow it")
+			}
+		}
+	}
 }
 
 func isNamedPtrTo(t types.Type, pkg, name string) bool {
